@@ -348,6 +348,19 @@ func nilOf(v Val) Val {
 	return v
 }
 
+var gEng *Engine
+
+// boxIfNeeded: comparing an interface value with a concrete pointer boxes the pointer.
+func boxIfNeeded(a, b Val) (Val, Val) {
+	if _, ok := a.(Iface); ok {
+		if p, ok := b.(Ptr); ok && p.Cell == nil && p.Arr == "" && len(p.Path) == 0 && p.Elem != nil && gEng != nil {
+			id := gEng.typeID(types.NewPointer(p.Elem))
+			b = Iface{sIte("(= "+p.Ref+" 0)", strconv.Itoa(id), strconv.Itoa(id)), p.Ref}
+		}
+	}
+	return a, b
+}
+
 func binop(op token.Token, a, b Val, ctx string) Val {
 	if _, ok := a.(NilV); ok {
 		a = nilOf(b)
@@ -355,6 +368,8 @@ func binop(op token.Token, a, b Val, ctx string) Val {
 	if _, ok := b.(NilV); ok {
 		b = nilOf(a)
 	}
+	a, b = boxIfNeeded(a, b)
+	b, a = boxIfNeeded(b, a)
 	switch op {
 	case token.EQL, token.NEQ:
 		// comparing an interface with a concrete value is not supported in contracts
@@ -536,6 +551,45 @@ func (e *Env) evalCall(n *ast.CallExpr) Val {
 		name, _ := strconv.Unquote(lit.Value)
 		id := e.x.eng.typeIDByName(name)
 		return Bool{sEq(iv.Tag, strconv.Itoa(id))}
+	case "intval":
+		// integer payload of an interface value (meaningful when its dynamic type is an integer type)
+		v := e.eval(n.Args[0])
+		switch y := v.(type) {
+		case Iface:
+			return Int{y.Pay}
+		case Int:
+			return y
+		}
+		evalFail("intval of %T", v)
+	case "boolval":
+		v := e.eval(n.Args[0])
+		if y, ok := v.(Iface); ok {
+			return Bool{"(= " + y.Pay + " 1)"}
+		}
+		evalFail("boolval of %T", v)
+	case "f64", "f32":
+		v := e.eval(n.Args[0])
+		switch y := v.(type) {
+		case Iface:
+			if fname == "f64" {
+				return e.x.unbox(y, types.Typ[types.Float64])
+			}
+			return e.x.unbox(y, types.Typ[types.Float32])
+		case Flt:
+			return y
+		case Int:
+			if fname == "f64" {
+				return Flt{"((_ to_fp 11 53) RNE (to_real " + y.T + "))", 64}
+			}
+			return Flt{"((_ to_fp 8 24) RNE (to_real " + y.T + "))", 32}
+		}
+		evalFail("%s of %T", fname, v)
+	case "strval":
+		v := e.eval(n.Args[0])
+		if y, ok := v.(Iface); ok {
+			return e.x.unbox(y, types.Typ[types.String])
+		}
+		evalFail("strval of %T", v)
 	case "isnil":
 		v := e.eval(n.Args[0])
 		c, ok := valEqual(v, nilOf(v))
